@@ -674,7 +674,8 @@ pub unsafe extern "C" fn biscuit_sealed_size(biscuit: Option<&Biscuit>) -> usize
 
     let biscuit = biscuit.unwrap();
 
-    match biscuit.0.serialized_size() {
+    // the size of the sealed token: sealing replaces the next secret by a signature
+    match biscuit.0.seal().and_then(|sealed| sealed.serialized_size()) {
         Ok(sz) => sz,
         Err(e) => {
             update_last_error(Error::Biscuit(e));
@@ -732,15 +733,8 @@ pub unsafe extern "C" fn biscuit_serialize_sealed(
     match (*biscuit).0.seal() {
         Ok(b) => match b.to_vec() {
             Ok(v) => {
-                let size = match biscuit.0.serialized_size() {
-                    Ok(sz) => sz,
-                    Err(e) => {
-                        update_last_error(Error::Biscuit(e));
-                        return 0;
-                    }
-                };
-
-                let output_slice = std::slice::from_raw_parts_mut(buffer_ptr, size);
+                // the caller's buffer has the size announced by biscuit_sealed_size
+                let output_slice = std::slice::from_raw_parts_mut(buffer_ptr, v.len());
 
                 output_slice.copy_from_slice(&v[..]);
                 v.len()
